@@ -1,5 +1,6 @@
 """C09 - retain(), take() and detach keep the books straight."""
 from .mcommon import *
+from .mcommon import branch_condition
 from .roles import classify_write, adt_of
 from .facts import strip_generics, Operand, Place
 from .analysis import sources
@@ -41,6 +42,12 @@ def holds_object(r):
             return False
         if 'std::collections::vec_deque::Drain' in adts or 'std::vec::Drain' in adts:
             return True
+        # a struct of this crate that mentions pooled objects only behind references (a cursor / RAII helper over
+        # `&mut VecDeque<ObjectInner>`) borrows them, it owns none
+        a_ = r.crate.adt(adt_of(ty) or '')
+        if a_ is not None and a_.get('variants') and adt_of(ty) not in (r.OBJINNER,) and \
+                all(f_['ty'].startswith('&') or not (f_['parts'].get('params') or r.OBJINNER in f_['parts'].get('adts', [])) for v_ in a_['variants'] for f_ in v_['fields']):
+            return False
         return r.OBJINNER in adts or '<M as deadpool::managed::Manager>::Type' in l['parts']['params']
     return pred
 
@@ -130,7 +137,7 @@ def drop_site_audit(ctx, r, rule):
                        site[0], an.resolve_local(l) if l is not None else site[1], b.locals[l]['ty'] if l is not None else '', b.name) if not ok else '',
                    construct='drop-without-detach:' + b.name, sites=[w])
     ctx.count('drop_sites_audited', n)
-    ctx.floor(rule, 'drop sites of pooled objects audited', n, 6)
+    ctx.floor(rule, 'drop sites of pooled objects audited', n, 4)
 
 
 def _mentions_local(an, op, l, depth=0):
@@ -173,6 +180,35 @@ def run(ctx):
                     escapes.append((sorted(t_.callee_names())[0], t_.line))
     ctx.ob('R09.1', 'the predicate is invoked at exactly one site, once per idle object', len(preds) == 1 and not extra and not escapes, ctx.where(b),
            'predicate call sites in retain: %d, in its closures: %s, passed on to: %s' % (len(preds), extra, escapes), construct='retain:predicate-sites')
+    # every call of retain() looks at the idle queue: no way to the return that bypasses the walk, except behind a test (under
+    # the lock) that the queue is empty.  `status().available == 0` is not that test: gets in flight make it 0 with idle objects
+    qc0 = queue_calls(r, b, an)
+    loop_q = [x.idx for x, m in qc0 if in_cycle(an, x.idx) and not x.cleanup]
+    empt = [x for x, m in qc0 if m in ('is_empty', 'len') and not in_cycle(an, x.idx) and not x.cleanup]
+    if loop_q:
+        esc = an.reach([0], ('normal',), avoid=loop_q + [x.idx for x in empt])
+        rets = an.exits()['return']
+        bypass = [e for e in rets if e in esc]
+        ctx.ob('R09.1', 'retain() never returns without having looked at the idle queue', not bypass, ctx.where(b),
+               'a path from the entry to the return passes neither the walk nor an emptiness test of the queue: idle objects are not offered to the predicate' if bypass else '',
+               construct='retain:bypass')
+        for e_ in empt:
+            # behind the emptiness test: the non-empty side must go through the walk
+            sw_ = [x for x in b.blocks if x.term.kind == 'switch' and x.term.j.get('dty') == 'bool' and x.term.discr.kind != 'const' and any(s_[0] == 'call' and s_[2] == e_.idx for s_ in sources(an, x.term.discr))]
+            for x in sw_:
+                c_ = branch_condition(an, x, 'true')
+                arms_ = dict(x.term.switch_arms())
+                m_ = [m for y, m in qc0 if y.idx == e_.idx][0]
+                nonempty = None
+                if m_ == 'is_empty':
+                    neg_ = False
+                    d_ = an.single_def(x.term.discr.place.local) if not x.term.discr.place.proj else None
+                    if d_ and d_[0] == 'stmt' and d_[3].rv.kind == 'un' and d_[3].rv.binop == 'Not':
+                        neg_ = True
+                    nonempty = arms_['true' if neg_ else 'false']
+                if nonempty is not None:
+                    esc2 = an.reach([nonempty], ('normal',), avoid=loop_q)
+                    ctx.ob('R09.1', 'a non-empty idle queue is always walked', not any(e in esc2 for e in rets), ctx.where(b, x.term.line), '', construct='retain:bypass-nonempty')
     if len(preds) != 1:
         pass
     else:
@@ -202,6 +238,13 @@ def run(ctx):
             # blocks exclusive to one arm (before the arms join again)
             keep_only = keep_reach - drop_reach
             drop_only = drop_reach - keep_reach
+            # another algorithm altogether: every element is taken out before it is judged and the kept ones are put back.
+            # Whether that preserves order and count is a loop argument this rule does not attempt - no verdict, no alarm
+            pre = [x for x in removes if an.dominates(x.idx, sw.idx) and in_cycle(an, x.idx)]
+            if pre:
+                ctx.undecide('R09.1', 'retain takes every element out (line %s) and re-inserts the kept ones: the order / count argument of such a walk is not attempted' % pre[0].term.line)
+                removes = None
+        if len(preds) == 1 and len(sws) == 1 and removes is not None:
             bad_keep = [x for x in removes if x.idx in keep_only] + [x for x in dets if x.idx in keep_only]
             ctx.ob('R09.1', 'predicate true: element kept (no remove / detach on that branch)', not bad_keep, ctx.where(b, sw.term.line),
                    'the kept branch removes or detaches an object' if bad_keep else '', construct='retain:true-branch')
@@ -302,7 +345,13 @@ def run(ctx):
         pushes = [x.idx for x, m in queue_calls(r, bd, dan) if m.startswith('push')]
         for d in dets:
             for p in pushes:
-                both = p in dan.reach_after(d, ('normal',)) or d in dan.reach_after(p, ('normal',))
+                # the same object: the value pushed is the one handed to detach (in a loop another element may be pushed on a
+                # later round - the definition of the local in between makes it another object)
+                pa = bd.blocks[p].term.args[1] if len(bd.blocks[p].term.args) > 1 else None
+                lp = pa.place.local if pa is not None and pa.kind != 'const' else None
+                same = lp is None or any(_mentions_local(dan, a, lp) for a in bd.blocks[d].term.args)
+                redef = [x[1] for x in dan.defs(lp)] if lp is not None else []
+                both = same and (p in dan.reach_after(d, ('normal',), avoid=redef) or d in dan.reach_after(p, ('normal',), avoid=redef))
                 ctx.ob('R09.3', 'no path both detaches and keeps an object', not both, ctx.where(bd, bd.blocks[d].term.line), '', construct='detach-and-keep:' + bd.name)
 
     # ---- R09.4 drop-site audit ---------------------------------------------------------
